@@ -188,10 +188,10 @@ SPEC = {
                  'lanczos.projection', 'lanczos.early-return-justified', 'arnoldi.recurrence', 'arnoldi.orthonormal', 'arnoldi.projection',
                  'arnoldi.hessenberg'],
     'workloads': [
-        Workload('grid', grid_case, quick=len(GRID) * 8, thorough=len(GRID) * 400,
+        Workload('grid', grid_case, quick=len(GRID) * 8, thorough=len(GRID) * 3000,
                  exhaustive={'space': 'all (n,m), 1<=n<=10, 1<=m<=n+5 (each with rotating spectrum/start/dtype classes)'}),
-        Workload('large', large_case, quick=150, thorough=6000),
-        Workload('f6', f6_case, quick=6, thorough=96),
+        Workload('large', large_case, quick=300, thorough=36000),
+        Workload('f6', f6_case, quick=6, thorough=288),
     ],
     'shards': {'quick': 1, 'thorough': 16},
     'assumptions': ['reference Krylov dimension from a twice re-orthogonalised Arnoldi process; thresholds 1e-8 (exhausted) and 1e-5 (margin)'],
